@@ -329,7 +329,7 @@ const (
 func TestVerif_C18(t *testing.T) {
 	r := newRun(t, "C18")
 	r.Rule("configuration kinds {allow-all, discrete, `*` headers anonymous, anonymous+authorization, credentialed, PNA, PNA no-cors, large lists (300 origins / 300 methods / 1100 request headers / 300 exposed headers)} x debug off/on x 97 request kinds (incl. label-count families of the Origin - plain, A-label, numeric, hyphen, underscore - at 12 fine-grained sizes below the Origin length cap), each with one attacker-sized field (Origin bytes / labels / field lines - copies, case variants, other allowed origins, junk -, ACRM bytes / field lines, ACRPN field lines, ACRH bytes / elements / distinct sorted well-formed names / empty elements / OWS run / field lines; list elements and bytes drawn from lower-case, mixed-case, upper-case, non-token, non-ASCII, padded and long templates) x sizes 1..10^5 bytes and 1..10^4 elements (quick) or 14 sizes up to 10^6 bytes and 11 up to 10^5 elements (thorough). " +
-		"Each cell is measured three times: the sized request repeated, the sized request alternating with an ordinary browser preflight (state carried from request to request), and the sized request with Vary and every Access-Control-* response header pre-set by an outer layer. evaluation = one AllocsPerRun measurement (runs+1 ServeHTTP calls or pairs) with a reusable minimal writer and a no-op handler on the plain build; oracle: allocations <= " + fmt.Sprint(c18Ceiling) + " at every size and allocations at any size <= (maximum over the two smallest sizes) + " + fmt.Sprint(c18Slack) + ". non-trivial = measurement at size >= 100, distinct by construction")
+		"Each cell is measured four times (the fourth as an HTTP/2 request with a body, the asterisk-form target and Host equal to its own origin): the sized request repeated, the sized request alternating with an ordinary browser preflight (state carried from request to request), and the sized request with Vary and every Access-Control-* response header pre-set by an outer layer. evaluation = one AllocsPerRun measurement (runs+1 ServeHTTP calls or pairs) with a reusable minimal writer and a no-op handler on the plain build; oracle: allocations <= " + fmt.Sprint(c18Ceiling) + " at every size and allocations at any size <= (maximum over the two smallest sizes) + " + fmt.Sprint(c18Slack) + ". non-trivial = measurement at size >= 100, distinct by construction")
 	r.Assume("the harness's writer, handler and pre-built request allocate nothing per call; GOMAXPROCS(1) during the measurement (testing.AllocsPerRun)")
 	if r.Variant != "plain" {
 		r.Assume("NOTE: measured on a non-plain build variant; counts include instrumentation")
@@ -364,7 +364,8 @@ func TestVerif_C18(t *testing.T) {
 				if strings.Contains(rk.name, "(fine sizes)") {
 					sizes = []int{1, 2, 3, 5, 8, 12, 16, 20, 24, 28, 40, 60}
 				}
-				smallMax, smallMaxI, smallMaxP := -1.0, -1.0, -1.0
+				smallMax, smallMaxI, smallMaxP, smallMaxV := -1.0, -1.0, -1.0, -1.0
+				allocsV := make([]float64, len(sizes)) // HTTP/2 + body + asterisk target + Host = own origin
 				allocsP := make([]float64, len(sizes)) // response headers pre-set by an outer layer
 				allocs := make([]float64, len(sizes))
 				allocsI := make([]float64, len(sizes)) // the sized request ALTERNATING with an ordinary browser preflight
@@ -400,9 +401,21 @@ func TestVerif_C18(t *testing.T) {
 						h.ServeHTTP(w, req)
 					})
 					allocsP[si] = ap
-					l.evals += 3
+					// the same request as an HTTP/2 request with a body, the asterisk-form target and Host = its own origin
+					// (lesson of seeded change C18-o: a code path taken only for another protocol version)
+					reqV := rk.mk(n).httpReqVariant(89)
+					av := testing.AllocsPerRun(runs, func() {
+						clear(w.h)
+						h.ServeHTTP(w, reqV)
+					})
+					allocsV[si] = av
+					if si < 2 && av > smallMaxV {
+						smallMaxV = av
+					}
+					dist[fmt.Sprintf("allocs_per_request_other_protocol_%02d", int(av))]++
+					l.evals += 4
 					if n >= 100 {
-						l.nontrivN += 3
+						l.nontrivN += 4
 					}
 					if si < 2 && ap > smallMaxP {
 						smallMaxP = ap
@@ -416,6 +429,17 @@ func TestVerif_C18(t *testing.T) {
 					}
 					dist[fmt.Sprintf("allocs_per_request_%02d", int(a))]++
 					dist[fmt.Sprintf("allocs_per_alternating_pair_%02d", int(ai))]++
+				}
+				for si, n := range sizes {
+					av := allocsV[si]
+					if av > c18Ceiling {
+						r.Violate("allocs-above-ceiling-other-protocol", "allocs", fmt.Sprintf("%s, debug=%v, %s as an HTTP/2 request with a body, target `*` and Host = its origin, size %d: %.0f allocations per request (ceiling %d); by size %v: %v", cc.name, dbg, rk.name, n, av, c18Ceiling, sizes, allocsV), c18Case{cc.name, dbg, rk.name, n})
+						break
+					}
+					if av > smallMaxV+c18Slack {
+						r.Violate("allocs-grow-with-size-other-protocol", "allocs", fmt.Sprintf("%s, debug=%v, %s as an HTTP/2 request with a body, target `*` and Host = its origin: %.0f allocations per request at size %d vs at most %.0f at the two smallest sizes; by size %v: %v", cc.name, dbg, rk.name, av, n, smallMaxV, sizes, allocsV), c18Case{cc.name, dbg, rk.name, n})
+						break
+					}
 				}
 				for si, n := range sizes {
 					ap := allocsP[si]
